@@ -90,7 +90,7 @@ def classify(b, vr):
             'possible arithmetic underflow/overflow', 'possible division by zero', 'index out of bounds',
             'possible bit shift underflow/overflow', 'decreases not satisfied', 'recommendation not met',
             'unreachable', 'cannot prove termination', 'loop must have a decreases', 'split',
-            'might fail', 'not satisfied'))
+            'might fail', 'not satisfied', 'unable to prove', 'possible', 'cannot show', 'failed'))
         if UNDECIDED_PAT.search(msg):
             undecided.append(rec)
         elif is_verif:
